@@ -23,6 +23,10 @@ POOL = {
     'Balance2': ('pan', ['ar', 'kr'], 4, 2),
     'RandSeed': ('noise', ['ar', 'kr', 'ir'], 2, 0),
     'RandID': ('noise', ['kr', 'ir'], 1, 0),
+    # demand-rate units (pulled by Duty / arithmetic on demand sources runs at demand rate)
+    'Dwhite': ('demand', ['dr'], 3, 1),
+    'Dseries': ('demand', ['dr'], 3, 1),
+    'Duty': ('demand', ['ar', 'kr'], 4, 1),
     # FFT chain units: width-first SynthObjects (not UGens), usable only as chain arguments
     'FFT': ('fft', ['kr'], 6, 1),
     'PV_MagAbove': ('fft', ['new'], 2, 1),
@@ -30,6 +34,16 @@ POOL = {
     'PV_MagMul': ('fft', ['new'], 2, 1),
     'IFFT': ('fft', ['ar'], 3, 1),
 }
+# unit input j is constructor argument PERM[cls][j] (documented input order of the unit)
+PERM = {'Dseries': [2, 0, 1], 'Dwhite': [2, 0, 1], 'Duty': [0, 1, 3, 2]}
+
+
+def unit_inputs(cls, args):
+    p = PERM.get(cls)
+    return [args[j] for j in p] if p and len(args) == len(p) else list(args)
+
+
+DEMAND_CLASSES = {'Dwhite', 'Dseries', 'Duty'}
 CHAIN_CLASSES = {'FFT', 'PV_MagAbove', 'PV_BrickWall', 'PV_MagMul', 'IFFT'}
 PURE_HINT = {'SinOsc', 'LFSaw', 'LFPulse', 'Impulse', 'K2A', 'A2K', 'LinExp', 'DC'}
 RATE_CONSTRAINED = {'Pan2', 'Balance2'}          # `_check_n_inputs`: may reject valid-looking programs
